@@ -223,13 +223,15 @@ def load_known():
     return json.load(open(p)).get("findings", [])
 
 
-def match_known(prop, clause, op, known):
+def match_known(prop, clause, op, known, tr=""):
     """An OPEN finding matches when property and clause agree and every key of
     its `match` object equals the corresponding field of the violating step."""
     for k in known:
         if k.get("status") != "open" or k.get("property") != prop:
             continue
         if k.get("clause") not in (None, clause):
+            continue
+        if k.get("trace_prefix") and not str(tr).startswith(k["trace_prefix"]):
             continue
         m = k.get("match", {})
         if all(str(op.get(f)) == str(v) for f, v in m.items()):
